@@ -4,7 +4,7 @@
    Values are int64: equalities are modulo 2^64 (wrap64), exactly what Go's += computes. *)
 From Coq Require Import List NArith ZArith Bool.
 From Coq Require Import Permutation.
-From Qryn Require Import model.Pprof model.ProfTree proofs.PprofProofs proofs.ProfTreeProofs.
+From Qryn Require Import model.Pprof model.ProfTree model.ProfDiff model.ProfSql proofs.PprofProofs proofs.ProfTreeProofs proofs.ProfSqlProofs proofs.ProfDiffProofs.
 Import ListNotations.
 Open Scope Z_scope.
 
@@ -184,6 +184,58 @@ Theorem flamegraph_total_is_sum : forall (limit : Z) (rows : list row) (fs : lis
   total_of (merge_trie limit new_tree rows fs) = wrap64 (rchild_tot rows 0%N).
 Proof. exact total_is_sum_proof. Qed.
 Print Assumptions flamegraph_total_is_sum.
+
+(* The read path as ProfService.getTree runs it.  The statement of PlanMergeTraces (coq/model/ProfSql.v: parsed from the
+   text the real service sends, rendered back byte for byte and evaluated on the stored rows by the check) returns the
+   stored rows of the profiles inside its time window, projected on the selected sample type, grouped by (parent,
+   function, node) with wrapping sums, in any order.  For every hash under which each profile of the window meets the
+   hypothesis of tree_conserves, any window, any order of the returned rows (at most the node limit = the statement's
+   LIMIT): the tree MergeTrie folds them into conserves and the bars under its root add up to the weights of the
+   profiles in the window. *)
+Theorem read_path_conserves : forall (h : N -> N -> N) (na : N) (limit : Z) (db : list (Z * stored)) (from to : Z)
+    (rows : list row) (fs : list (N * Z)),
+  let Ps := map snd (filter (in_window from to) db) in
+  Forall (stored_ok h na) Ps ->
+  Permutation rows (group_rows (concat (map (stored_rows h na) Ps))) ->
+  Z.of_nat (length rows) <= limit ->
+  let out := rows_of (m_nodes (merge_trie limit new_tree rows fs)) in
+  rconserves out /\ eqm (rchild_tot out 0%N) (sumZ (map stored_weight Ps)).
+Proof. exact ProfSqlProofs.read_path_conserves. Qed.
+Print Assumptions read_path_conserves.
+
+Example read_path_applies :
+  let Ps := map snd (filter (in_window 0 2000000000) ex_db) in
+  length Ps = 2%nat /\ Forall (stored_ok city16 0%N) Ps /\
+  length (concat (map (stored_rows city16 0%N) Ps)) = 12%nat /\
+  length (group_rows (concat (map (stored_rows city16 0%N) Ps))) = 6%nat.
+Proof. exact ex_db_hypotheses. Qed.
+
+(* GROUP BY with wrapping sums keeps conservation and never needs more rows than the raw hand-over *)
+Theorem grouping_keeps_conservation : forall rows : list row,
+  (rconserves rows -> rconserves (group_rows rows)) /\ (length (group_rows rows) <= length rows)%nat.
+Proof. intros rows. split; [apply group_rows_conserves|apply group_rows_length]. Qed.
+Print Assumptions grouping_keeps_conservation.
+
+(* The diff view (RenderDiff: mergeNodes + computeFlameGraphDiff, coq/model/ProfDiff.v).  mergeChildren, for ANY two
+   child lists: both results list the same node ids in the same order, the left result carries exactly the weight of
+   the left input and the right result that of the right input (the nodes filled in are zero) ... *)
+Theorem diff_alignment_keeps_weights : forall a b : list tnode,
+  map t_id (fst (merge_children a b)) = map t_id (snd (merge_children a b)) /\
+  sum_total_of (fst (merge_children a b)) = sum_total_of a /\ sum_self_of (fst (merge_children a b)) = sum_self_of a /\
+  sum_total_of (snd (merge_children a b)) = sum_total_of b /\ sum_self_of (snd (merge_children a b)) = sum_self_of b.
+Proof. exact merge_children_aligned. Qed.
+Print Assumptions diff_alignment_keeps_weights.
+
+(* ... and the ticks of the diff are the sums of the inputs: left/right = the rows under the root of each side
+   (modulo 2^64), total = their sum, for any rows in any order.  (Nesting of the diff's bars is judged on every observed
+   diff by the boolean oracle dvalues_nest_b, not proved.) *)
+Theorem diff_ticks_are_sums : forall (limit : Z) (lrows rrows : list row) (lfs rfs : list (N * Z)),
+  Z.of_nat (length lrows) <= limit -> Z.of_nat (length rrows) <= limit ->
+  let o := compute_diff (merge_trie limit new_tree lrows lfs) (merge_trie limit new_tree rrows rfs) in
+  o_left o = wrap64 (rchild_tot lrows 0%N) /\ o_right o = wrap64 (rchild_tot rrows 0%N) /\
+  o_total o = wrap64 (rchild_tot lrows 0%N + rchild_tot rrows 0%N).
+Proof. exact ProfDiffProofs.diff_ticks_are_sums. Qed.
+Print Assumptions diff_ticks_are_sums.
 
 (* ------------------------------------------------------------------------------------------------
    levels_nest.  For a tree with non-negative self and total values and exact conservation under every
